@@ -299,7 +299,16 @@ func MSend(desc string, obj types.Object) Matcher {
 func MReturn(desc string, pred func(f *Fn, r *ast.ReturnStmt) bool) Matcher {
 	return Matcher{Desc: "return " + desc, Ok: true, M: func(f *Fn, n ast.Node) bool {
 		r, ok := n.(*ast.ReturnStmt)
-		return ok && (pred == nil || pred(f, r))
+		if !ok {
+			return false
+		}
+		// returns of nested function literals are not returns of f
+		for p := f.parent[r]; p != nil; p = f.parent[p] {
+			if _, isLit := p.(*ast.FuncLit); isLit {
+				return false
+			}
+		}
+		return pred == nil || pred(f, r)
 	}}
 }
 
